@@ -1177,6 +1177,7 @@ func faceRound(w *bufio.Writer, round int, g *gen, heavy bool) {
 				case len(mine) > 0:
 					id := mine[len(mine)-1]
 					text, res = "fget "+strconv.FormatUint(id, 10), tokStr(face.FaceTable.Get(id))
+					_ = len(face.FaceTable.GetAll()) // the snapshot used by status datasets and the expiration handler
 				default:
 					continue
 				}
